@@ -39,7 +39,7 @@ OPS = ['store'] * 4 + ['multi'] * 2 + ['undo'] * 2 + ['undo2', 'delete', 'restor
 
 
 def shards(tier, seed):
-    return split(tier, seed, 200, 2000, 40, 1200)
+    return split(tier, seed, 600, 20000, 40, 1200)
 
 
 def record_history(s, d, nops, big):
